@@ -65,6 +65,17 @@ class FnInfo:
     src_line: int
     rewrites: dict = field(default_factory=dict)
     external_body: bool = False
+    skeleton: str = ""     # control keywords of the source body, in order (see control_skeleton)
+
+
+SKELETON_KW = ("if", "else", "match", "loop", "while", "for", "return", "break", "continue")
+
+
+def control_skeleton(body_text):
+    """The control structure a proof script is tied to: the sequence of control keywords of the function body as written in
+    /repo (before any rewrite). Loop invariants, anchors and hints are attached to this structure; conditions, operands and
+    straight-line statements can change without changing it."""
+    return " ".join(t.text for t in rl.tokenize(body_text) if t.kind == rl.IDENT and t.text in SKELETON_KW)
 
 
 class Source:
@@ -643,6 +654,7 @@ class Weaver:
         for (a_, b_) in subs:
             body = body.replace(a_, b_)
         body = resolve_cfg_in_body(body, self.config)
+        info.skeleton = control_skeleton(body)
         if mutself:
             btoks = rl.tokenize(body)
             body = "".join(("vx_self" if (t.kind == rl.IDENT and t.text == "self") else t.text) for t in btoks)
